@@ -723,7 +723,13 @@ func sameValue(a, b reflect.Value, path string) string {
 		return ""
 	}
 	switch a.Kind() {
-	case reflect.Float32, reflect.Float64:
+	case reflect.Float32:
+		// by bit pattern, read without a conversion: widening a float32 to a float64
+		// (what Value.Float does) sets the quiet bit of a signalling NaN
+		if x, y := f32bits(a), f32bits(b); x != y {
+			return fmt.Sprintf("%s: float32 bits %08x vs %08x", path, x, y)
+		}
+	case reflect.Float64:
 		if math.Float64bits(a.Float()) != math.Float64bits(b.Float()) {
 			return fmt.Sprintf("%s: float %v vs %v", path, a.Float(), b.Float())
 		}
@@ -1567,4 +1573,11 @@ type refdictAVP = struct{}
 func kindOf(typeName string) refcodec.Kind {
 	k, _ := refcodec.KindOf(typeName)
 	return k
+}
+
+// f32bits returns the bit pattern of a value of kind Float32 as it is stored.
+func f32bits(v reflect.Value) uint32 {
+	p := reflect.New(v.Type())
+	p.Elem().Set(v)
+	return *(*uint32)(p.UnsafePointer())
 }
